@@ -33,9 +33,14 @@ def clause_tags(clause):
         m, _, suf = clause[1].partition("@")
         if suf:
             return {"C08"}
-        return {METHOD_PROP[m]}
+        # compress_strict / expand_strict are the strict spellings of compress / expand: their answers also count for the
+        # properties that speak about compress / expand
+        extra = {"compress_strict": {"C01", "C03"}, "expand_strict": {"C02", "C03"}}.get(m, set())
+        return {METHOD_PROP[m]} | extra
     if kind in ("out", "post", "nconv", "dups"):
         t = OP_PROP.get(clause[1])
+        if clause[1] == "load" and kind in ("out", "nconv", "dups"):
+            return {"C13", "C04"}       # whether a loader accepts or rejects its input is strict construction (C04) too
         return {t} if t else set()
     if kind == "frame":
         return {"C10"}
@@ -51,9 +56,9 @@ HIST_FACTOR = {"C05": 2.5, "C09": 1.5, "C10": 1.5, "C11": 3, "C12": 2}     # che
 QUERY_PROPS = {"C01", "C02", "C03", "C06", "C07", "C08"}
 LIGHT = ["compress", "expand", "standardize_prefix", "parse_uri"]
 METHODS = {
-    "C01": ["parse_uri", "compress", "is_uri"],
-    "C02": ["parse_curie", "expand", "expand_all", "is_curie", "expand_pair", "expand_reference", "expand_pair_all"],
-    "C03": ["compress", "expand", "expand_all", "standardize_uri", "standardize_curie"],
+    "C01": ["parse_uri", "compress", "is_uri", "compress_strict"],
+    "C02": ["parse_curie", "expand", "expand_all", "is_curie", "expand_pair", "expand_reference", "expand_pair_all", "expand_strict"],
+    "C03": ["compress", "expand", "expand_all", "standardize_uri", "standardize_curie", "compress_strict", "expand_strict"],
     "C06": ["standardize_prefix", "standardize_curie", "standardize_uri", "expand", "compress"],
     "C07": None, "C08": None,
     "C04": LIGHT, "C05": LIGHT + ["expand_all", "standardize_uri"], "C09": LIGHT, "C10": LIGHT + ["expand_all", "is_curie", "is_uri"],
@@ -210,6 +215,17 @@ def scale_oplists(pid, seed):
                     rng.shuffle(sh)
                 out.append([{"k": "new", "recs": sh, "delim": ":"}])
         out.append([{"k": "new", "recs": base, "delim": ":"}])
+    if pid in ("C04", "C13"):
+        # the loaders validate what they are given exactly like Record(...): a record that lists its own prefix / URI prefix among
+        # its synonyms is rejected through every entrance (objects, plain dictionaries, a JSON file by str path and by Path)
+        good = {"p": "GO", "u": "http://purl.obolibrary.org/obo/GO_", "ps": ["go"], "us": [], "pat": None}
+        for bad in ({"p": "CHEBI", "u": "http://purl.obolibrary.org/obo/CHEBI_", "ps": ["chebi", "CHEBI"], "us": [], "pat": None},
+                    {"p": "CHEBI", "u": "http://purl.obolibrary.org/obo/CHEBI_", "ps": [], "us": ["http://purl.obolibrary.org/obo/CHEBI_"], "pat": None}):
+            for via in ("obj", "obj", "str", "path"):
+                out.append([{"k": "load", "loader": "epm", "data": [good], "delim": ":", "via": via},
+                            {"k": "load", "loader": "epm", "data": [good, bad], "delim": ":", "via": via},
+                            {"k": "load", "loader": "epm", "data": [bad], "delim": ":", "via": via},
+                            {"k": "mkrec", "rec": bad}])
     if pid in ("C09", "C10"):
         big150 = big_records(150)
         keep = [r["p"] for r in big150[:140]]
@@ -256,6 +272,25 @@ def scale_oplists(pid, seed):
                         {"k": "sub", "i": 4, "P": ["GO"], "extra": ex},
                         {"k": "add", "i": 5, "rec": {"p": "GO", "u": "http://purl.obolibrary.org/obo/GO_", "ps": ["later"], "us": [], "pat": None}, "cs": True, "mg": True, "via": "record", "extra": ex},
                         {"k": "probe", "is": [1, 2, 3, 4, 5], "extra": ex + ["later:1"]}])
+    if pid in ("C10", "C11", "C12", "C09"):
+        # every derivation, then a merge on the DERIVED converter that brings a new CURIE synonym and a new URI synonym into the
+        # record the derivation touched; the input is re-observed (records, views with synonyms, expand_all / expand_pair_all)
+        ra = {"p": "pa", "u": "http://a.example/", "ps": ["pa1"], "us": ["http://a.alt/"], "pat": None}
+        rb = {"p": "pb", "u": "http://b.example/", "ps": ["pb1"], "us": [], "pat": None}
+        ex = ["pa:1", "pa1:1", "pa2:1", "pz:1", "http://a.example/1", "http://a.alt/1", "http://a.new/1", "http://a.more/1", "pb:1"]
+        for dop, p2, u2 in (({"k": "rewire", "i": 1, "m": [["pa", "http://a.new/"]]}, "pa", "http://a.new/"),
+                            ({"k": "rewire", "i": 1, "m": [["pa1", "http://a.alt/"]]}, "pa", "http://a.alt/"),
+                            ({"k": "remap_uri", "i": 1, "m": [["http://a.example/", "http://a.new/"]]}, "pa", "http://a.new/"),
+                            ({"k": "remap_curie", "i": 1, "m": [["pa", "pz"]]}, "pz", "http://a.example/"),
+                            ({"k": "sub", "i": 1, "P": ["pa1"]}, "pa", "http://a.example/"),
+                            ({"k": "chain", "is": [1], "cs": True}, "pa", "http://a.example/")):
+            if pid == "C11" and dop["k"] != "remap_curie" or pid == "C12" and dop["k"] not in ("rewire", "remap_uri") or pid == "C09" and dop["k"] not in ("sub", "chain"):
+                continue
+            out.append([{"k": "new", "recs": [ra, rb], "delim": ":", "extra": ex}, dict(dop, extra=ex),
+                        {"k": "add", "i": 2, "rec": {"p": p2, "u": u2, "ps": ["pa2"], "us": ["http://a.more/"], "pat": None}, "cs": True, "mg": True, "via": "prefix", "extra": ex},
+                        {"k": "probe", "is": [1, 2], "extra": ex},
+                        {"k": "add", "i": 1, "rec": {"p": "pb", "u": "http://b.example/", "ps": ["pb2"], "us": ["http://b.more/"], "pat": None}, "cs": True, "mg": True, "via": "record", "extra": ex},
+                        {"k": "probe", "is": [1, 2], "extra": ex + ["pb2:1", "http://b.more/1"]}])
     if pid in ("C11", "C10"):
         big110 = big_records(110)
         out.append([{"k": "new", "recs": big110, "delim": ":"},
